@@ -179,6 +179,9 @@ static std::string project(TasmanianSparseGrid const &g){
 }
 
 // ---------------------------------------------------------------- observers
+// route-vs-route comparison of a sum of products: the rounding error scales with the sum of the magnitudes of the terms
+static double vsum_scale = 0.0; // sum of |loaded values| of the grid under observation: weights carry absolute rounding noise
+static bool sclose(double a, double b, double scale){ return std::fabs(a - b) <= 1.0e-10 * (scale + std::fabs(b)) + 1.0e-12 * vsum_scale + 1.0e-13; }
 static bool close(double a, double b, double tol){ return std::fabs(a - b) <= tol * (1.0 + std::fabs(a) + std::fabs(b)); }
 
 static std::string obs_nodal(TasmanianSparseGrid const &g){
@@ -262,6 +265,7 @@ static std::string obs_routes(TasmanianSparseGrid const &g, unsigned seed){
             std::vector<double> yb; g.evaluateBatch(x, yb);
             const double *v = g.getLoadedValues();
             const double *c = g.getHierarchicalCoefficients();
+            vsum_scale = 0.0; for(size_t i=0; i<(size_t) nl * (size_t) outs; i++) vsum_scale += std::fabs(v[i]);
             bool e_row = true, e_w = true, e_h = true, e_dw = true;
             bool has_needed = (g.getNumNeeded() > 0);
             for(int i=0; i<nx; i++){
@@ -271,18 +275,18 @@ static std::string obs_routes(TasmanianSparseGrid const &g, unsigned seed){
                 if (!has_needed){ // weights and hierarchical functions refer to "points" = loaded points only when nothing is pending
                     auto w = g.getInterpolationWeights(xi);
                     for(int k=0; k<outs; k++){
-                        double sum = 0.0; for(int p=0; p<nl; p++) sum += w[(size_t) p] * v[(size_t) p * outs + k];
-                        e_w = e_w && close(sum, y[(size_t) k], 1.0e-9);
+                        double sum = 0.0, sc = 0.0; for(int p=0; p<nl; p++){ double t = w[(size_t) p] * v[(size_t) p * outs + k]; sum += t; sc += std::fabs(t); }
+                        e_w = e_w && sclose(sum, y[(size_t) k], sc);
                     }
                     if (!g.isGlobal()){
                         for(int k=0; k<outs; k++){
-                            double sum = 0.0;
+                            double sum = 0.0, sc = 0.0;
                             if (g.isFourier()){
-                                for(int p=0; p<nl; p++) sum += c[(size_t) p * outs + k] * hd[(size_t) i * stride + 2 * (size_t) p] - c[(size_t) (p + nl) * outs + k] * hd[(size_t) i * stride + 2 * (size_t) p + 1];
+                                for(int p=0; p<nl; p++){ double t1 = c[(size_t) p * outs + k] * hd[(size_t) i * stride + 2 * (size_t) p], t2 = c[(size_t) (p + nl) * outs + k] * hd[(size_t) i * stride + 2 * (size_t) p + 1]; sum += t1 - t2; sc += std::fabs(t1) + std::fabs(t2); }
                             }else{
-                                for(int p=0; p<nl; p++) sum += c[(size_t) p * outs + k] * hd[(size_t) i * stride + (size_t) p];
+                                for(int p=0; p<nl; p++){ double t = c[(size_t) p * outs + k] * hd[(size_t) i * stride + (size_t) p]; sum += t; sc += std::fabs(t); }
                             }
-                            e_h = e_h && close(sum, y[(size_t) k], 1.0e-9);
+                            e_h = e_h && sclose(sum, y[(size_t) k], sc);
                         }
                     }
                     if (i < 7){
@@ -290,8 +294,9 @@ static std::string obs_routes(TasmanianSparseGrid const &g, unsigned seed){
                             std::vector<double> jac; g.differentiate(xi, jac);
                             auto dw = g.getDifferentiationWeights(xi);
                             for(int k=0; k<outs; k++) for(int j=0; j<d; j++){
-                                double sum = 0.0; for(int p=0; p<nl; p++) sum += dw[(size_t) p * d + j] * v[(size_t) p * outs + k];
-                                e_dw = e_dw && close(sum, jac[(size_t) k * d + j], 1.0e-8);
+                                double sum = 0.0, sc = 0.0; for(int p=0; p<nl; p++){ double t = dw[(size_t) p * d + j] * v[(size_t) p * outs + k]; sum += t; sc += std::fabs(t); }
+                                if (getenv("VERIF_DEBUG") && !sclose(sum, jac[(size_t) k * d + j], 100.0 * sc)) fprintf(stderr, "dw mismatch: x[0]=%.17g sum=%.17g jac=%.17g sc=%g vsum=%g\n", xi[0], sum, jac[(size_t) k * d + j], sc, vsum_scale);
+                                e_dw = e_dw && sclose(sum, jac[(size_t) k * d + j], 100.0 * sc);   // derivative formulas lose digits next to nodes: 1e-8 of the term scale
                             }
                         }catch(std::exception &){ }
                     }
@@ -303,11 +308,11 @@ static std::string obs_routes(TasmanianSparseGrid const &g, unsigned seed){
                 std::vector<double> q; g.integrate(q);
                 auto qw = g.getQuadratureWeights();
                 bool e_q = true, e_ih = true;
-                for(int k=0; k<outs; k++){ double sum = 0.0; for(int p=0; p<nl; p++) sum += qw[(size_t) p] * v[(size_t) p * outs + k]; e_q = e_q && close(sum, q[(size_t) k], 1.0e-9); }
+                for(int k=0; k<outs; k++){ double sum = 0.0, sc = 0.0; for(int p=0; p<nl; p++){ double t = qw[(size_t) p] * v[(size_t) p * outs + k]; sum += t; sc += std::fabs(t); } e_q = e_q && sclose(sum, q[(size_t) k], sc); }
                 add("integrate_qweights", e_q);
                 if (!g.isGlobal() && !g.isFourier()){
                     std::vector<double> ih((size_t) np); g.integrateHierarchicalFunctions(ih.data());
-                    for(int k=0; k<outs; k++){ double sum = 0.0; for(int p=0; p<nl; p++) sum += ih[(size_t) p] * c[(size_t) p * outs + k]; e_ih = e_ih && close(sum, q[(size_t) k], 1.0e-9); }
+                    for(int k=0; k<outs; k++){ double sum = 0.0, sc = 0.0; for(int p=0; p<nl; p++){ double t = ih[(size_t) p] * c[(size_t) p * outs + k]; sum += t; sc += std::fabs(t); } e_ih = e_ih && sclose(sum, q[(size_t) k], sc); }
                     add("integrate_hier", e_ih);
                 }
             }
